@@ -235,7 +235,7 @@ Proof. intros He Hp. apply (peval_wf env (mk_env_from_wf bds 0%nat env He) e p H
 Print Assumptions C18_port_expressions_wf.
 
 Example C18_port_algebra_example :
-  wf ex_p /\ mk_env [BSim DBidir 3 [true; false; true]] = Ok [ex_p] /\
+  wf ex_p /\ mk_env [BSim DBidir 3 (InvList [true; false; true])] = Ok [ex_p] /\
   peval [ex_p] (PAdd (PInv (PSlice (PBase 0) (Sl (Some 1) None None))) (PIdx (PBase 0) (-3)))
     = Ok (Port KSim [(0, 1); (0, 2); (0, 0)]%nat [] [true; false; true] DBidir).
 Proof. vm_compute. auto. Qed.
